@@ -187,6 +187,34 @@ fn check_cli(t: &mut Tape, stats: &mut Stats) -> Vec<Failure> {
     vec![]
 }
 
+/// cyclic / recursive type graphs through the real binary with --visualize-deps (the dependency
+/// listing walks the graph): exit status 0 or 1, no signal, both graph files written on success
+fn check_viz(t: &mut Tape, stats: &mut Stats) -> Vec<Failure> {
+    let g = crate::gen::graph::random_graph(t, true);
+    let files = g.render();
+    let mode = if t.bool() { "zod" } else { "none" };
+    stats.eval();
+    stats.label("engine=viz_cli");
+    let cyclic = g.edges.iter().any(|e| e.to <= e.from);
+    if cyclic {
+        stats.label("viz:cyclic_graph");
+        stats.nontrivial(&format!("{:?}", files));
+    }
+    let dir = tool::fresh_dir("c15v");
+    tool::write_project(&dir.join("proj"), &files);
+    let o = tool::run_cli(&["generate", "-p", "proj", "-o", "out", "-v", mode, "--visualize-deps"], &dir);
+    let produced = tool::read_dir_files(&dir.join("out"));
+    let _ = std::fs::remove_dir_all(&dir);
+    let case = json!({"graph": g.summary(), "mode": mode, "files": files.iter().map(|(p, s)| json!({"path": p, "content": s})).collect::<Vec<_>>()});
+    if !(o.status == Some(0) || o.status == Some(1)) {
+        return vec![Failure::new("abnormal_exit").tag("engine=viz_cli").tag(format!("mode={}", mode)).tag(if cyclic { "graph=cyclic" } else { "graph=acyclic" }).observed(format!("status {:?} signal {:?}: {}", o.status, o.signal, crate::run::truncate(&o.stderr, 300))).expected("exit status 0 or 1").case(case)];
+    }
+    if o.status == Some(0) && produced.contains_key("commands.ts") && !(produced.contains_key("dependency-graph.txt") && produced.contains_key("dependency-graph.dot")) {
+        return vec![Failure::new("viz_files_missing").tag("engine=viz_cli").observed(format!("{:?}", produced.keys().collect::<Vec<_>>())).expected("dependency-graph.txt and dependency-graph.dot").case(case)];
+    }
+    vec![]
+}
+
 fn fuzz_campaign(ctx: &Ctx, target: &str, seconds: u64) {
     // thorough tier only: coverage-guided campaign; a crash artifact becomes a violation
     for (bytes, log) in crate::fuzz::campaign(ctx, target, seconds, &[], "/repo/tests/fixtures") {
@@ -203,7 +231,7 @@ fn fuzz_campaign(ctx: &Ctx, target: &str, seconds: u64) {
 }
 
 pub fn run(ctx: &Ctx) {
-    ctx.set_rule("(1) grammar-generated exotic Rust files (generics, lifetimes, where-clauses, impl/dyn, fn pointers, arrays, never, qualified paths, macros, raw and non-ASCII identifiers, attributes with arbitrary-Unicode payloads, malformed validator/serde attributes), 1-3 files per project; (2) real-world corpus: .rs files of /repo and of the vendored dependency sources, verbatim, truncated and with single-character mutations; (3) isolation: the base project plus one unparsable file must generate what the base project generates; (4) a sample through the real binary (exit status 0 or 1); (5, thorough) libFuzzer campaigns on harness/fuzz targets. evaluation = one generation run (project x mode); non-trivial = the input parses as Rust and contains an attribute or a generic type");
+    ctx.set_rule("(1) grammar-generated exotic Rust files (generics, lifetimes, where-clauses, impl/dyn, fn pointers, arrays, never, qualified paths, macros, raw and non-ASCII identifiers, attributes with arbitrary-Unicode payloads, malformed validator/serde attributes), 1-3 files per project; (2) real-world corpus: .rs files of /repo and of the vendored dependency sources, verbatim, truncated and with single-character mutations; (3) isolation: the base project plus one unparsable file must generate what the base project generates; (4) a sample through the real binary (exit status 0 or 1), and type graphs with cycles / self-references through the real binary with --visualize-deps; (5, thorough) libFuzzer campaigns on harness/fuzz targets. evaluation = one generation run (project x mode); non-trivial = the input parses as Rust and contains an attribute or a generic type");
     ctx.set_exhaustive(false);
     ctx.assume("termination is observed through generous timeouts; a timeout is inconclusive (exit 2), never a violation");
     let files = corpus_files();
@@ -250,6 +278,7 @@ pub fn run(ctx: &Ctx) {
     });
     ctx.search("c15.isolation", ctx.tier.pick(200, 3000), 200, |tape, stats| check_isolation(tape, stats));
     ctx.search("c15.cli", ctx.tier.pick(60, 600), 600, |tape, stats| check_cli(tape, stats));
+    ctx.search("c15.viz", ctx.tier.pick(150, 2000), 200, |tape, stats| check_viz(tape, stats));
     if !quick {
         for target in ["fz_file", "fz_attr"] {
             fuzz_campaign(ctx, target, 180);
@@ -267,6 +296,10 @@ pub fn replay(check: &str, input: &Value, stats: &mut Stats) -> Option<Vec<Failu
         "c15.isolation" => {
             let mut tape = Tape::new(super::tape_of(input));
             Some(check_isolation(&mut tape, stats))
+        }
+        "c15.viz" => {
+            let mut tape = Tape::new(super::tape_of(input));
+            Some(check_viz(&mut tape, stats))
         }
         "c15.cli" => {
             let mut tape = Tape::new(super::tape_of(input));
